@@ -123,6 +123,55 @@ mutual
     | t :: ts => Embeds g t ∧ EmbedsL g ts
 end
 
+/-! ### Depth-first order on arbitrary Kids graphs (shared nodes, cycles) -/
+
+/-- Own dictionary of the indirect node `n`. -/
+def nodeDict (g : Store) (n : Nat) : Dict := dictValue g (.atom (.ref n))
+
+/-- `n` is expanded by the walk: Type Pages and a Kids entry. -/
+def isPagesNode (g : Store) (n : Nat) : Bool :=
+  isName (nodeType (nodeDict g n)) "Pages" && (dget (nodeDict g n) "Kids").isSome
+
+/-- `n` is yielded by the walk. -/
+def isPageNode (g : Store) (n : Nat) : Bool :=
+  !isPagesNode g n && isName (nodeType (nodeDict g n)) "Page"
+
+/-- The Kids entries the walk iterates over at `n`. -/
+def kidsOf (g : Store) (n : Nat) : List Elem :=
+  if isPagesNode g n then listValue g ((dget (nodeDict g n) "Kids").getD (.atom .null)) else []
+
+/-- Object number of a Kids entry (a reference or an integer), if it has one. -/
+def kidId : Elem → Option Nat
+  | .atom (.ref n) => some n
+  | .atom (.int i) => if 0 ≤ i then some i.toNat else none
+  | _ => none
+
+/-- The Page nodes at the ends of all *simple* Kids paths that start at `n` and avoid the nodes `anc`
+(the nodes already on the path), path after path in Kids order: the leaf sequence of the graph
+unfolded into a tree, where a branch ends when it would come back to one of its own ancestors.
+No visited set, no state shared between branches. The budget bounds the length of a path; with
+`number of objects + 1` no simple path is cut (`C04_path_budget`). -/
+def pathLeaves (g : Store) : Nat → List Nat → Nat → List Nat
+  | 0, _, _ => []
+  | f + 1, anc, n =>
+    if anc.contains n then []
+    else if isPagesNode g n then
+      (kidsOf g n).flatMap (fun k =>
+        match kidId k with
+        | some b => pathLeaves g f (n :: anc) b
+        | none => [])
+    else if isPageNode g n then [n] else []
+
+/-- First occurrences of the elements of a list that are not in `seen`. -/
+def novel : List Nat → List Nat → List Nat
+  | _, [] => []
+  | seen, x :: xs => if seen.contains x then novel seen xs else x :: novel (x :: seen) xs
+
+/-- **Depth-first order on a graph**: the Page nodes in the order in which the depth-first
+enumeration of all simple Kids paths from the root `r` first arrives at them. On a tree this is the
+leaf order; a shared node counts where it is first met, a cycle is cut where it closes. -/
+def specOrder (g : Store) (r : Nat) : List Nat := novel [] (pathLeaves g (g.length + 1) [] r)
+
 /-! ### Unfolding an object graph (driver only) -/
 
 def mapKids (f : Elem → Option PTree) : List Elem → Option (List PTree)
